@@ -6,6 +6,7 @@ import (
 	"fmt"
 	"math/big"
 	"math/bits"
+	"reflect"
 	"testing"
 
 	"verif/internal/h"
@@ -656,6 +657,24 @@ func submod(a, b, q uint64) uint64 {
 		return a - b
 	}
 	return a + q - b
+}
+
+// callErr calls f(args...) by reflection and returns its last result when that is a non-nil error. It lets the check
+// compile against both signatures of RelinearizationKeyGenProtocol.AggregateShares / GenRelinearizationKey (without
+// and with an error result).
+func callErr(f any, args ...any) error {
+	in := make([]reflect.Value, len(args))
+	for i, a := range args {
+		in[i] = reflect.ValueOf(a)
+	}
+	out := reflect.ValueOf(f).Call(in)
+	if len(out) == 0 {
+		return nil
+	}
+	if err, ok := out[len(out)-1].Interface().(error); ok {
+		return err
+	}
+	return nil
 }
 
 func crsPRNG(key uint64) (*sampling.KeyedPRNG, error) {
